@@ -42,6 +42,16 @@ pub fn fam_scheme(j: u8) -> String {
     s
 }
 
+/// A client scheme with the smallest stop: `stop=1`, line 0 = 19 - no session packet is padded, so the
+/// session is already past its own stop when a push with a larger stop arrives (client_scheme >= 100).
+pub fn small_scheme() -> String {
+    "stop=1\n0=19-19".to_string()
+}
+
+pub fn client_scheme_text(cs: u8) -> String {
+    if cs >= 100 { small_scheme() } else { fam_scheme(cs) }
+}
+
 fn fam_size(j: u8, k: usize) -> usize {
     2000 + 1500 * j as usize + 100 * k
 }
@@ -113,7 +123,7 @@ async fn child(case: &PushCase) -> ChildOut {
             return out;
         }
     };
-    let padding: Arc<PaddingFactory> = if case.default_used { PaddingFactory::default() } else { Arc::new(PaddingFactory::new(fam_scheme(case.client_scheme).as_bytes()).unwrap()) };
+    let padding: Arc<PaddingFactory> = if case.default_used { PaddingFactory::default() } else { Arc::new(PaddingFactory::new(client_scheme_text(case.client_scheme).as_bytes()).unwrap()) };
     let cfg = anytls_rs::util::tls::create_client_config().unwrap();
     let connector = Arc::new(tokio_rustls::TlsConnector::from(cfg));
     let name = tokio_rustls::rustls::pki_types::ServerName::IpAddress(srv.addr.ip().into());
@@ -244,8 +254,16 @@ pub fn judge(case: &PushCase, out: &ChildOut, cx: &CaseCtx) -> Result<(bool, boo
     enum Cur {
         Default,
         Fam(u8),
+        /// the small-stop client scheme: no session packet is padded
+        Small,
     }
-    let mut cur = if case.default_used { Cur::Default } else { Cur::Fam(case.client_scheme) };
+    let mut cur = if case.default_used {
+        Cur::Default
+    } else if case.client_scheme >= 100 {
+        Cur::Small
+    } else {
+        Cur::Fam(case.client_scheme)
+    };
     let default_md5 = md5_of(anytls_rs::padding::DEFAULT_PADDING_SCHEME.as_bytes());
     let mut pushes = 0usize;
     let mut nt_push_after_default = false;
@@ -261,6 +279,7 @@ pub fn judge(case: &PushCase, out: &ChildOut, cx: &CaseCtx) -> Result<(bool, boo
         let want_md5 = match &cur {
             Cur::Default => default_md5.clone(),
             Cur::Fam(j) => md5_of(fam_scheme(*j).as_bytes()),
+            Cur::Small => md5_of(small_scheme().as_bytes()),
         };
         let next_sig = if pushes >= 1 { "C19.next:later-session-announces-old-scheme" } else { "C19.next" };
         if obs.md5.as_deref() != Some(want_md5.as_str()) {
@@ -276,6 +295,14 @@ pub fn judge(case: &PushCase, out: &ChildOut, cx: &CaseCtx) -> Result<(bool, boo
                 cur = Cur::Fam(j);
             } else if obs.md5.as_deref() == Some(default_md5.as_str()) {
                 cur = Cur::Default;
+            } else if obs.md5.as_deref() == Some(md5_of(small_scheme().as_bytes()).as_str()) {
+                cur = Cur::Small;
+            }
+        }
+        if cur == Cur::Small {
+            let pp = obs.preamble_padding.unwrap_or(usize::MAX);
+            if pp != 19 && !cx.tolerate(next_sig) {
+                return Err(Fail::new("C19.next", next_sig, format!("{tag}: preamble padding {pp}, scheme line 0 prescribes 19")));
             }
         }
         if let Cur::Fam(j) = &cur {
@@ -320,6 +347,7 @@ pub fn judge(case: &PushCase, out: &ChildOut, cx: &CaseCtx) -> Result<(bool, boo
                 match c {
                     Cur::Fam(j) => *padded && *total == fam_size(*j, k),
                     Cur::Default => *total < 2000,
+                    Cur::Small => !*padded && *total < 1900,
                 }
             };
             let ok = if k == 1 {
@@ -369,7 +397,7 @@ impl Family for PushFam {
     }
     fn strategy(&self, _tier: Tier) -> BoxedStrategy<PushCase> {
         let ss = prop_oneof![5 => (0u8..4).prop_map(ServerScheme::Fam), 1 => Just(ServerScheme::Builtin), 1 => (0u8..3).prop_map(ServerScheme::Bad)];
-        (any::<bool>(), 0u8..4, proptest::collection::vec((ss, 1u8..5), 1..=4)).prop_map(|(default_used, client_scheme, sessions)| PushCase { default_used, client_scheme, sessions }).boxed()
+        (any::<bool>(), prop_oneof![4 => 0u8..4, 1 => Just(100u8)], proptest::collection::vec((ss, 1u8..5), 1..=4)).prop_map(|(default_used, client_scheme, sessions)| PushCase { default_used, client_scheme, sessions }).boxed()
     }
     fn fixed_cases(&self, _tier: Tier) -> Vec<PushCase> {
         vec![
@@ -381,6 +409,8 @@ impl Family for PushFam {
             PushCase { default_used: true, client_scheme: 0, sessions: vec![(ServerScheme::Fam(1), 3), (ServerScheme::Fam(1), 2)] },
             // unparsable pushes
             PushCase { default_used: false, client_scheme: 3, sessions: vec![(ServerScheme::Bad(0), 2), (ServerScheme::Bad(1), 2), (ServerScheme::Bad(2), 2)] },
+            // a client whose own scheme stops after packet 1, pushed a scheme with a larger stop
+            PushCase { default_used: false, client_scheme: 100, sessions: vec![(ServerScheme::Fam(1), 4), (ServerScheme::Fam(1), 2)] },
             // a client with its own scheme against a server that runs the built-in one, and back
             PushCase { default_used: false, client_scheme: 2, sessions: vec![(ServerScheme::Builtin, 3), (ServerScheme::Builtin, 2), (ServerScheme::Fam(1), 2), (ServerScheme::Builtin, 2)] },
         ]
